@@ -389,9 +389,13 @@ def r5(ctx, tables):
             if cb is None:
                 continue
             cc = comparison(canon(Prov(cb, facts).local(0)))
-            if cc and cc[0] == "==" and all(re.match(r"Enr::node_id\(", fmt_short(x)) for x in (cc[1], cc[2])) and short(ce[1]).endswith("any"):
-                f_, tr_ = dg.bool_edges(bi)
+            ids_cmp = cc and all(re.match(r"Enr::node_id\(", fmt_short(x)) for x in (cc[1], cc[2]))
+            f_, tr_ = dg.bool_edges(bi)
+            if ids_cmp and cc[0] == "==" and short(ce[1]).endswith("any"):
                 by_id.append((bi, tr_ if neg else f_))      # the edge on which no seen record has this id
+                rule.analysed(cb)
+            elif ids_cmp and cc[0] == "!=" and short(ce[1]).endswith("all"):
+                by_id.append((bi, f_ if neg else tr_))      # `all(|e| e.node_id() != id)` says the same
                 rule.analysed(cb)
     r_ = db.reachable(0, removed_edges=by_id)
     rule.check(bool(pushes) and bool(by_id) and not any(bi in r_ for bi, _ in pushes), "a record joins the lookup's seen records only if no seen record has its node id",
